@@ -5,6 +5,9 @@ import json, subprocess
 HOOK_COMMITS = []  # filled in as hook commits are made in /repo
 
 CHECKS = {
+ "C11": dict(cat="exploration", technique="runtime metamorphic monitor: the grouped query's table is compared with a reference grouping of the rows the real engine returns for the same pattern without GROUP BY",
+   text="Sampled: 2.5 k (quick) to 32 k (thorough) aggregate queries over dense numeric data: 1-2 grouping bindings or aliases, mixed-kind key columns, count / count(distinct) / sum in any mix and order, empty patterns.",
+   note="Decoupled from C03: the input of the reference grouping is the engine's own ungrouped result; sums compared exactly for int64, with a relative tolerance for float64.", ref="DESIGN.md §5 C11"),
  "C10": dict(cat="exploration", technique="runtime reference-model monitor (left-outer-join evaluator) plus a reference-free metamorphic monitor (projection on the mandatory bindings == query without its OPTIONAL clauses) on generated statements run through the real pipeline",
    text="Sampled: 2.5 k (quick) to 40 k (thorough) patterns with 1-3 OPTIONAL clauses after 1-2 mandatory ones over random sparse and dense data; sharing 0-2 bindings, fully specified, inapplicable extractions, clauses matching nothing.",
    note="Trusted: Appendix A left-join semantics in bq.Solve; extraction bindings inside OPTIONAL clauses are fresh; cases with more than 1500 reference solutions are skipped and counted.", ref="DESIGN.md §5 C10"),
